@@ -27,6 +27,7 @@ import TonVerif.Proofs.BocEmit
 import TonVerif.Proofs.BocOrder
 import TonVerif.Proofs.BocConform
 import TonVerif.Proofs.BocSemFinal
+import TonVerif.Proofs.SrcBocWidths
 
 namespace TonVerif.Properties.C04
 open TonVerif TonVerif.Model TonVerif.Spec.Boc TonVerif.Proofs.BocEmit TonVerif.Proofs.BocOrder TonVerif.Proofs.BocSem
@@ -277,5 +278,40 @@ example : (∀ a ∈ sample, a.OK sample.length) ∧ Forward sample ∧ 1 ≤ sa
     · simp [sample] at h; subst h; simp at hj
     · simp [sample] at h; subst h; simp at hj
     · rw [List.getElem?_eq_none (by simp [sample]; omega)] at h; cases h
+
+/-! ### Source tie for the width computations
+
+`Generated.cellsLen / maxOffset / payloadLen` are REGENERATED from `Cell.to_boc` in `boc/cell.py` on every run
+(harness/translate/arith.py); the emitter model `Model.emit` uses `Model.byteWidth`.  The theorems below show, for all
+inputs, that the code's own arithmetic is the model's, is sufficient for every value written into a size / offset
+field (doubled offsets with cache bits included) and is minimal. -/
+section Src
+open TonVerif.Proofs.SrcBocWidths TonVerif.Proofs.SrcArith
+
+/-- the `cells_len` the Python computes is the size width the emitter model uses -/
+theorem c04_src_cells_len (n : Nat) : Generated.cellsLen n = Model.byteWidth n := by
+  rw [src_cellsLen_eq, Model.byteWidth, ← py_bitLength_eq, bitLength_bytes]
+
+/-- the offset width the Python computes (from `max_offset`, doubled with cache bits) is the one the emitter model uses -/
+theorem c04_src_payload_len (total : Nat) (cb : Bool) :
+    Generated.payloadLen (Generated.maxOffset total cb) = Model.byteWidth (if cb then total * 2 else total) := by
+  rw [src_payloadLen_eq, src_maxOffset_eq, Model.byteWidth, ← py_bitLength_eq, bitLength_bytes]
+  cases cb <;> simp [Nat.mul_comm]
+
+/-- widths_sufficient, stated about the code's own arithmetic: the cell count and every cell index fit `cells_len` bytes;
+the payload length and every (possibly doubled) index entry fit the offset width; no narrower widths would do. -/
+theorem c04_src_widths_sufficient (n i total off : Nat) (cb : Bool) (hi : i ≤ n) (ho : off ≤ total) :
+    i < 256 ^ Generated.cellsLen n ∧
+    total < 256 ^ Generated.payloadLen (Generated.maxOffset total cb) ∧
+    (if cb then 2 * off else off) < 256 ^ Generated.payloadLen (Generated.maxOffset total cb) ∧
+    (∀ w, n < 256 ^ w → Generated.cellsLen n ≤ w) ∧
+    (∀ w, Generated.maxOffset total cb < 256 ^ w → Generated.payloadLen (Generated.maxOffset total cb) ≤ w) :=
+  ⟨src_cellsLen_sufficient n i hi, (src_payloadLen_sufficient total off cb ho).1, (src_payloadLen_sufficient total off cb ho).2,
+   fun w h => src_cellsLen_minimal n w h, fun w h => src_payloadLen_minimal _ w h⟩
+
+example : Generated.cellsLen 256 = 2 ∧ Generated.payloadLen (Generated.maxOffset 128 true) = 2 := by
+  simp only [src_cellsLen_eq, src_payloadLen_eq, src_maxOffset_eq]; decide +kernel
+
+end Src
 
 end TonVerif.Properties.C04
